@@ -657,8 +657,9 @@ def GS(op, layout, props, tier="quick", mem="light", timeout=1800, minlen=1, max
 def GL(layout, cls, props, tier="quick", mem="light", timeout=1800, minlen=1, maxlen=1, probe_max=2, unwind=10, weak=False):
     cname = ["hit", "back", "none"][cls]
     name = "c02_lesplit_%s%s_%s_k%d%d_p%d" % (cname, "_weak" if weak else "", layout, minlen, maxlen, probe_max)
+    _two = any(len(d) >= 2 for kids in data_parents(LAYOUT_TREES[layout][1]) for d in kids)
     covers = [["f.expect == Some(0)", "f.expect == Some(f.n - 1)"],
-              ["f.expect.is_none()", "f.expect.is_some() && f.loads >= 1", "f.expect.is_some() && f.loads == 0"],
+              ["f.expect.is_none()", "f.expect.is_some() && f.loads >= 1"] + (["f.expect.is_some() && f.loads == 0"] if _two else []),
               ["f.expect == Some(f.n - 1)"]][cls]
     extra = contract_stubs(ge="some" if cls < 2 else ("none_weak" if weak else "none"))
     src = "glue_harness_with!(%s, %d, %s, {\n    let f = le_split(%s, %d, %s, %d, %d, %d);\n%s    let _ = &f;\n});\n" % (
